@@ -113,4 +113,13 @@ def forgedLog (p : Pair) (f n : Nat) : Pair :=
     { p with coinSupply := p.coinSupply + n, coinBal := upd p.coinBal f (p.coinBal f + n) }
   else p
 
+/-- a token whose `transfer` secretly approves a third address on the recipient: after tokens have reached the module,
+    that address takes `n` of the module's tokens with `transferFrom` (an honest token never lets this happen: the module
+    approves nobody) -/
+def drainEscrow (p : Pair) (thief n : Nat) : Pair :=
+  if n ≤ p.tokBal modAddr ∧ thief ≠ modAddr then
+    let tb := upd p.tokBal modAddr (p.tokBal modAddr - n)
+    { p with tokBal := upd tb thief (tb thief + n) }
+  else p
+
 end Haqq.Peg
